@@ -116,4 +116,68 @@ theorem flush_spec (pool : Pool) (c : Conn) (h : CInv pool c) (acc : Nat) :
   rw [List.drop_append_of_le_length (by omega), ← List.append_assoc, List.take_append_drop]
 
 
+/-! ### the pending-write queue and the write signal -/
+
+/-- everything handed to the connection, queued requests included -/
+def qstream (c : Conn) : Bytes := stream c ++ c.queue.flatten
+
+theorem writev_queue (pool : Pool) (c : Conn) (bs : List Bytes) (acc : Nat) : (writev pool c bs acc).2.queue = c.queue := by
+  unfold writev
+  split
+  · rfl
+  · dsimp only
+    split <;> rfl
+
+theorem flush_queue (pool : Pool) (c : Conn) (acc : Nat) : (flush pool c acc).2.queue = c.queue := by
+  unfold flush
+  rfl
+
+theorem enqueue_spec (pool : Pool) (c : Conn) (h : CInv pool c) (req : Bytes) :
+    CInv pool (enqueue c req) ∧ qstream (enqueue c req) = qstream c ++ req := by
+  refine ⟨⟨h.pool, h.out⟩, ?_⟩
+  simp [qstream, enqueue, stream]
+
+theorem writeChunks_spec (fuel : Nat) (pool : Pool) (c : Conn) (h : CInv pool c) (bs : List Bytes) (accs : List Nat)
+    (hf : bs.length < fuel) (hio : 0 < Gen.iovMax) :
+    CInv (writeChunks pool c fuel bs accs).1 (writeChunks pool c fuel bs accs).2 ∧
+    stream (writeChunks pool c fuel bs accs).2 = stream c ++ bs.flatten ∧
+    (writeChunks pool c fuel bs accs).2.queue = c.queue := by
+  induction fuel generalizing pool c bs accs with
+  | zero => exact absurd hf (by omega)
+  | succ fuel ih =>
+    unfold writeChunks
+    split
+    · rename_i he
+      have : bs = [] := by simpa using he
+      subst this
+      exact ⟨h, by simp, rfl⟩
+    · rename_i hne
+      have hpos : 0 < bs.length := by
+        cases bs with
+        | nil => simp at hne
+        | cons _ _ => simp
+      obtain ⟨w1, w2⟩ := writev_spec pool c h (bs.take Gen.iovMax) (accs.headD 0)
+      have hq := writev_queue pool c (bs.take Gen.iovMax) (accs.headD 0)
+      have hlen : (bs.drop Gen.iovMax).length < fuel := by
+        rw [List.length_drop]; omega
+      obtain ⟨i1, i2, i3⟩ := ih _ _ w1 (bs.drop Gen.iovMax) accs.tail hlen
+      refine ⟨i1, ?_, by rw [i3, hq]⟩
+      rw [i2, w2, List.append_assoc, ← List.flatten_append, List.take_append_drop]
+
+/-- **`handleWriteSignal`**: whatever the kernel accepts in each vectored write, the queued requests move - in queue
+    order - behind what is already on the wire and in the backlog; nothing is lost, duplicated or reordered -/
+theorem writeSignal_spec (pool : Pool) (c : Conn) (h : CInv pool c) (accs : List Nat) (hio : 0 < Gen.iovMax) :
+    CInv (writeSignal pool c accs).1 (writeSignal pool c accs).2 ∧
+    qstream (writeSignal pool c accs).2 = qstream c ∧ (writeSignal pool c accs).2.queue = [] := by
+  unfold writeSignal
+  dsimp only
+  have h0 : CInv pool { c with queue := [] } := ⟨h.pool, h.out⟩
+  obtain ⟨i1, i2, i3⟩ := writeChunks_spec (c.queue.length + 1) pool { c with queue := [] } h0 c.queue accs (by omega) hio
+  obtain ⟨w1, w2⟩ := writev_spec _ _ i1 [] 0
+  have hq := writev_queue (writeChunks pool { c with queue := [] } (c.queue.length + 1) c.queue accs).1
+    (writeChunks pool { c with queue := [] } (c.queue.length + 1) c.queue accs).2 [] 0
+  refine ⟨w1, ?_, by rw [hq, i3]⟩
+  simp only [qstream, w2, i2, hq, i3, List.flatten_nil, List.append_nil]
+  simp [stream]
+
 end RcVerif.Lemmas.ConnIOBuf
